@@ -470,8 +470,8 @@ def gcc_branches(texts, defs):
     return out
 
 
-def ev_tie(ctx, res, exe, drv, asts, name, gcc_n):
-    ops = ["spec %s %s" % (lst(EV_DEFS), a) for a in asts]
+def ev_tie(ctx, res, exe, drv, asts, name, gcc_n, op="spec"):
+    ops = ["%s %s %s" % (op, lst(EV_DEFS), a) for a in asts]
     rc, mo, err = core.run_lines(drv, [], ops, timeout=900)
     if len(mo) != len(ops):
         raise core.CheckBroken("drv_c11 produced %d lines for %d ops: %s" % (len(mo), len(ops), err[-300:]))
@@ -736,6 +736,8 @@ def run(ctx, res):
         else:
             asts.append(gen_expr(rng, d))
     ev_tie(ctx, res, exe, drv, asts, "evaluate", 3000 if thorough else 400)
+    # the same trees fully parenthesised: the class of theorem ifeval_eq_spec_paren (a deviation there has no key)
+    ev_tie(ctx, res, exe, drv, asts[:(4000 if thorough else 600)], "evaluate-parenthesised", 600 if thorough else 100, op="specpf")
     # malformed conditions
     soups = [gen_soup(rng) for _ in range(3000 if thorough else 500)]
     sops = ["ev %s %s" % (lst(EV_DEFS), hx(t)) for t in soups]
